@@ -2032,6 +2032,9 @@ func (ctx Ctx) returnType(results *ast.FieldList) coq.Type {
 }
 
 func (ctx Ctx) funcDecl(d *ast.FuncDecl) coq.FuncDecl {
+	if d.Name.Name == "_" {
+		ctx.unsupported(d.Name, "function named _")
+	}
 	fd := coq.FuncDecl{Name: d.Name.Name, AddTypes: ctx.PkgConfig.TypeCheck,
 		TypeParams: ctx.typeParamList(d.Type.TypeParams),
 	}
@@ -2067,6 +2070,9 @@ func (ctx Ctx) constSpec(spec *ast.ValueSpec) coq.ConstDecl {
 		ctx.unsupported(spec, "multiple declarations in one spec (split them up)")
 	}
 	ident := spec.Names[0]
+	if ident.Name == "_" {
+		ctx.unsupported(spec, "constant or variable named _")
+	}
 	cd := coq.ConstDecl{
 		Name:     ident.Name,
 		AddTypes: ctx.PkgConfig.TypeCheck,
